@@ -51,8 +51,11 @@ def _shard(args):
     return c07_extract.run_shard(args)
 
 
-WIDE_QUICK = (100,)            # harness/c07_layout.wide on top of shared layout 0
-WIDE_THOROUGH = (100, 101, 103, 104)
+# own mutators of harness/c07_layout.py on top of a shared layout: 100 + v = wide (multi-byte text), 200 + v = kwadj
+# (keywords followed directly by an opener / quote / tab / continuation, closers followed directly by keywords;
+# identifiers that begin with keywords), 300 + v = wrapbreak (redundant parentheses broken over lines) then kwadj
+WIDE_QUICK = (100, 202, 300, 302)
+WIDE_THOROUGH = (100, 101, 103, 104, 200, 202, 204, 208, 300, 301, 302)
 
 
 def trace_specs(ctx, what, rounds, base=0):
